@@ -1,22 +1,12 @@
 #!/bin/bash
-# usage: eval_patch.sh <patch.diff> [props...]
-# Applies the patch in a scratch worktree of /repo (the repository itself is not touched), runs the quick checks
-# against it and prints, per property that raises an alarm, the violated/undecided obligations.
+# usage: eval_patch.sh <patch.diff> [props comma-separated | all]
+# Applies the patch in a scratch worktree of /repo (the repository itself is not touched) and prints the alarms the
+# quick rules raise against it.
 set -u
-patch="$1"; shift
-props="${@:-C01 C02 C03 C04 C05 C06 C07 C08 C09 C10 C11 C12 C13 C14 C15 C16 C17 C18 C19}"
+patch=$(readlink -f "$1"); props="${2:-all}"
+BIN=${RENDLINT:-/verif/bin/rendlint}
 wt=$(mktemp -d /tmp/wt/eval_XXXXXX); rmdir $wt
 git -C /repo worktree add -q --detach $wt HEAD || exit 2
-( cd $wt && git apply "$patch" ) || { echo "patch does not apply"; git -C /repo worktree remove --force $wt; exit 2; }
-out=$(mktemp -d); cp /verif/known_findings.json $out/
-n=0
-for p in $props; do
-  ( cd /verif && timeout 900 bin/rendlint check --property $p --repo $wt --verif $out > $out/$p.log 2>&1; echo $? > $out/$p.rc ) &
-  n=$((n+1)); if [ $((n % 5)) -eq 0 ]; then wait; fi
-done; wait
+git -C $wt apply "$patch" || { echo "patch does not apply"; git -C /repo worktree remove --force $wt; exit 2; }
+$BIN alarms --repo $wt --property $props
 git -C /repo worktree remove --force $wt
-for p in $props; do
-  rc=$(cat $out/$p.rc)
-  if [ "$rc" != "0" ]; then echo "ALARM $p:"; grep -E "^(VIOLATED|UNDECIDED)" $out/$p.log | cut -c1-260 | sed 's/^/    /'; fi
-done
-rm -rf $out
